@@ -460,7 +460,10 @@ fn run_op_inner(ctx: &mut Ctx, op: &Op) {
             check_inplace(ctx, op, Want { value, len, cap }, got, false);
         }
         Op::ShlLimbs(x, n) => {
-            let value = BigU::from_limbs64(x).shl(64 * *n as u64);
+            if *n > 200 {
+                ctx.rep.count("shift.absurd_count");
+            }
+            let value = if *n > 200 { BigU::from_limbs64(&[]) } else { BigU::from_limbs64(x).shl(64 * *n as u64) };
             let len = if x.is_empty() { 0 } else { x.len() + n };
             // both back-ends compare against the vector's own capacity()
             let vcap = mk(x).capacity();
@@ -476,6 +479,12 @@ fn run_op_inner(ctx: &mut Ctx, op: &Op) {
                 }
             }
             check_inplace_cap(ctx, op, want, got);
+        }
+        Op::Shl(x, n) if *n > 64 * 200 => {
+            // absurd shift: the result cannot fit; the value is never needed
+            ctx.rep.count("shift.absurd_count");
+            let got = inplace(&|v| bigint::shl(v, *n), x);
+            check_inplace(ctx, op, Want { value: BigU::from_limbs64(&[]), len: x.len() + n / 64, cap }, got, false);
         }
         Op::Shl(x, n) => {
             let xv = BigU::from_limbs64(x);
@@ -775,11 +784,15 @@ fn gen_op(rng: &Rng) -> Op {
         12 => Op::ShlBits(gen_limbs(rng, pick_len(rng, CAP), rng.chance(3, 4)), rng.range(1, 63) as usize),
         13 => {
             let n = pick_len(rng, CAP);
-            let by = match rng.below(4) {
+            let mut by = match rng.below(4) {
                 0 => (CAP - n).max(1),
                 1 => CAP - n + 1,
                 _ => rng.range(1, 64) as usize,
             };
+            if rng.chance(1, 12) {
+                // far beyond the capacity, but small after a narrowing cast to 8 / 16 / 32 bits: must be refused
+                by = (1usize << *rng.pick(&[8u32, 16, 16, 32])) * rng.range(1, 3) as usize + rng.range(0, (CAP - n) as i64 + 1) as usize;
+            }
             let x = if rng.chance(1, 20) { vec![] } else { gen_limbs(rng, n, rng.chance(3, 4)) };
             Op::ShlLimbs(x, by)
         }
@@ -792,6 +805,7 @@ fn gen_op(rng: &Rng) -> Op {
                 2 => 64 * rng.range(0, 62) as usize,
                 _ => rng.range(0, (room + 130) as i64) as usize,
             };
+            let by = if rng.chance(1, 12) { 64 * ((1usize << *rng.pick(&[8u32, 16, 16, 32])) * rng.range(1, 3) as usize + rng.range(0, (CAP - n) as i64 + 1) as usize) + rng.range(0, 63) as usize } else { by };
             Op::Shl(gen_limbs(rng, n, true), by)
         }
         16 => {
